@@ -181,6 +181,9 @@ func Observe(label string, v any) {
 	cur.res.Obs = append(cur.res.Obs, o)
 }
 
+// Atomic runs fn without scheduling points (engine); plain call natively.
+func Atomic(fn func()) { fn() }
+
 func Yield()               {}
 func Quiesce()             {}
 func SetUnwind(n int)      {}
